@@ -156,6 +156,42 @@ def _yield_from(stmts, func):
     return out if changed else None
 
 
+# ---------------------------------------------------------------------------------------------- f-strings
+class _FString(ast.NodeTransformer):
+    """f'{a}:{b!r}' -> '{}:{!r}'.format(a, b) - the spelling the 2/3-compatible tree uses (same conversions, same order of
+    evaluation); nested / non-constant format specs are left alone."""
+    def __init__(self):
+        self.changed = False
+
+    def visit_JoinedStr(self, n):
+        self.generic_visit(n)
+        tpl = []
+        args = []
+        for v in n.values:
+            if isinstance(v, ast.Constant) and isinstance(v.value, str):
+                tpl.append(v.value.replace('{', '{{').replace('}', '}}'))
+            elif isinstance(v, ast.FormattedValue):
+                spec = ''
+                if v.format_spec is not None:
+                    if not (isinstance(v.format_spec, ast.JoinedStr) and all(
+                            isinstance(x, ast.Constant) for x in v.format_spec.values)):
+                        return n
+                    spec = ':' + ''.join(x.value for x in v.format_spec.values)
+                conv = {-1: '', 115: '!s', 114: '!r', 97: '!a'}.get(v.conversion)
+                if conv is None:
+                    return n
+                tpl.append('{%s%s}' % (conv, spec))
+                args.append(v.value)
+            else:
+                return n
+        if not args:
+            return n
+        self.changed = True
+        call = ast.Call(func=ast.Attribute(value=ast.Constant(value=''.join(tpl)), attr='format', ctx=ast.Load()),
+                        args=args, keywords=[])
+        return ast.fix_missing_locations(ast.copy_location(call, n))
+
+
 # ---------------------------------------------------------------------------------------------- chain(A, B)
 def _chain_loop(stmts, func):
     """for x in chain(A, B): body  ->  for x in A: body; for x in B: body   (B.. pure and not re-bound by the body; no
@@ -1502,7 +1538,20 @@ def _repeated_tests(stmts, func):
             if _simple(e) and not isinstance(e, ast.Constant):
                 names = set(x.id for x in ast.walk(e) if isinstance(x, ast.Name))
                 text = ast.unparse(e)
-                aa = not isinstance(e, ast.Name)
+                # what a test said about a field of the object itself (self.x, cls.x, a module global) holds only until
+                # other code runs; a field of an object held in a local is taken as stable unless the branch stores to it
+                base = e
+                while isinstance(base, ast.Attribute):
+                    base = base.value
+                params0 = [a.arg for a in func.args.posonlyargs + func.args.args][:1]
+                local_base = isinstance(base, ast.Name) and base.id not in params0 and base.id in _stores(func.body)
+                aa = not isinstance(e, ast.Name) and not local_base
+                if local_base and not isinstance(e, ast.Name):
+                    stored_attr = any(isinstance(x, ast.Attribute) and isinstance(x.ctx, (ast.Store, ast.Del))
+                                      and isinstance(x.value, ast.Name) and x.value.id == base.id
+                                      for b_ in (s.body + s.orelse) for x in ast.walk(b_))
+                    if stored_attr:
+                        aa = True
                 s.body = fold_in(s.body, text, not neg, names, aa) or [ast.copy_location(ast.Pass(), s)]
                 s.orelse = fold_in(s.orelse, text, neg, names, aa)
     return stmts if changed[0] else None
@@ -1705,6 +1754,11 @@ def simple_passes(modules, log):
         if m.name.startswith('examples'):
             continue
         _MOD[0] = m
+        fs = _FString()
+        m.tree = fs.visit(m.tree)
+        if fs.changed:
+            log.append('f-strings written as str.format calls in %s' % m.name)
+            changed = True
         dd = Dedispatch(m.tree)
         ur = Unroll(m.tree)
         for (fn, cls) in _functions(m.tree):
